@@ -425,6 +425,12 @@ def expandSequence (T : PTables) : Nat → Buf → Option Str → List Tok → M
         else do
           let r ← expandMacro T fuel rest tok false
           expandSequence T fuel (r.1 ++ r.2) envStop out
+      else if (match tok.kind with | .verb _ => true | _ => false) then
+        if tok.kind == .verb true then
+          expandSequence T fuel (expandVerbEnvToken tok ++ rest) envStop out
+        else
+          expandSequence T fuel rest envStop
+            (out ++ [mkAction tok.pos, { kind := .text, pos := tok.pos, txt := tok.txt, fix := tok.fix }])
       else if txtIs tok "$" || txtIs tok "\\(" then do
         let r ← expandInlineMath T fuel rest tok
         expandSequence T fuel r.2 envStop (out ++ r.1)
@@ -454,12 +460,6 @@ def expandSequence (T : PTables) : Nat → Buf → Option Str → List Tok → M
         | some v =>
           expandSequence T fuel rest envStop
             (out ++ [mkAction tok.pos, { kind := .text, pos := tok.pos, txt := v, fix := tok.fix }])
-      else if (match tok.kind with | .verb _ => true | _ => false) then
-        if tok.kind == .verb true then
-          expandSequence T fuel (expandVerbEnvToken tok ++ rest) envStop out
-        else
-          expandSequence T fuel rest envStop
-            (out ++ [mkAction tok.pos, { kind := .text, pos := tok.pos, txt := tok.txt, fix := tok.fix }])
       else if (match tok.kind with | .lang .. => true | _ => false) then
         if st.multiLanguage then do
           match tok.kind with
